@@ -817,6 +817,19 @@ def rulePODInterval(ts: datetime, p: Time, i: Interval) -> Optional[Interval]:
             minute=i.t_from.minute,
             DOW=i.t_from.DOW,
         )
+    if (
+        t_from is not None
+        and t_to is not None
+        and t_from.year == t_to.year
+        and t_from.month == t_to.month
+        and t_from.day == t_to.day
+        and (
+            t_from.hour > t_to.hour
+            or (t_from.hour == t_to.hour and (t_from.minute or 0) >= (t_to.minute or 0))
+        )
+    ):
+        # moving one end into the part of day inverted the range
+        return None
     return Interval(t_from=t_from, t_to=t_to)
 
 
